@@ -1473,13 +1473,16 @@ def main():
     ck.sample(dict(stream="B", key=P[3][0], expected="balanced ledger, output ends with |ende"))
     ck.sample(dict(stream="M", note="real event sequence between the two marker allocations == Own.run (Own.compile skeleton) with the tape as oracle, pointers renamed by creation order"))
     ck.finish(explanation=(
+        "Model re-synchronised with /repo after the repairs 6711de1 c2054d3 2f9971e bf84b8a 597753d 39a39c6. "
         "FULL: C05_balancedb_correct (the extracted checker that judges every real ledger decides `balanced`), C05_balanced_released_once, "
         "C05_actions_balanced_on_every_exit (soundness of the static ownership discipline for the code generator's actions on fallthrough, break, "
-        "continue and return, all oracles/fuel), C05_runtime_fns_balanced (free, deep copy, Text and list concatenations transfer ownership as documented). "
-        "PARTIAL: C05_program_balanced_partial covers the skeleton programs whose compiled actions pass the extracted discipline (every generated stream-M "
-        "program without a planted construct does: statically_accepted_runs); no syntactic fragment theorem for Own.compile is proved. "
-        "REFUTED (faithful model, witnesses replayed on the real compiler by stream B/M): C05_program_balanced_refuted (loop conditions, `bis` bounds and loop "
-        "headers with temporaries, continue), C05_scalar_scalar_concat_refuted, C05_nul_text_concat_refuted. "
+        "continue and return, all oracles/fuel), C05_runtime_fns_balanced + C05_concat_callers_balanced (free, deep copy, Text and list concatenations, "
+        "including scalar+scalar of non-primitives and NUL-first Text operands, transfer ownership as documented), C05_former_witnesses_balanced, "
+        "C05_program_balanced_bounded (FULL with the bound in the statement: the 19866 enumerated skeleton programs of Lower/CompileBounded.v — every "
+        "construct, every loop form, every exit from inner scopes, in main and in an inlined function — compile to accepted, hence balanced, code). "
+        "PARTIAL: C05_program_balanced_partial covers all skeleton programs whose compiled actions pass the extracted discipline (every generated stream-M "
+        "program does: statically_accepted_runs); the unbounded compile-level lemma cexpr_ok/cstmt_ok (stated, with its proved invariant machinery, in "
+        "Lower/CompileOk.v) is NOT proved. C05_old_concat_functions_refuted documents the repaired runtime defects on *_old definitions only. "
         "Types other than Text / Text Liste are tied to the compiler only through the proved ledger checker and ASan, not through the ownership model."))
 
 
